@@ -476,6 +476,7 @@ func typeLevel(r *core.Report, env *build.Env) {
 		{Pkg: "src/parser/typechecker", Func: "VerifC15ListMismatch", Bound: "argument type term of depth <= 1 against the parameter 'T Liste'"},
 		{Pkg: "src/parser", Func: "VerifC15GenericScope", Bound: "one declaration (variable/Konstante/function) each in the declaration context and at the instantiation site, symbolic 1-byte names, symbolic query"},
 		{Pkg: "src/parser", Func: "VerifC15GenericTypeScope", Bound: "one type name each in the declaration context and at the instantiation site, symbolic 1-byte names, symbolic query"},
+		{Pkg: "src/parser", Func: "VerifC15VerdictAgrees", Bound: "whole frontend on the generic and on the specialised program: 8 body shapes x 5 type arguments"},
 		{Pkg: "src/parser/typechecker", Func: "VerifC15StructInstances", Bound: "two type arguments as type terms of depth <= 1 for a generic Kombination with fields T and T Liste"},
 	} {
 		s.Run(h)
